@@ -241,8 +241,40 @@ def rich_chain(seed, name="rich", long=True):
     return s
 
 
+def ill_sum(s, rnd, h, u, t, v1, v2, variant=None):
+    """A signed, canonically encoded transfer whose outputs do not add up to its input (fat2 Validate must refuse it): the sum wraps
+    around 2^64 back to the input (three or four outputs, each below 2^63), or is off by one either way. Never executed."""
+    bal = s.B(u, t)
+    inp = rnd.choice([100, max(1, bal // 2), 1, max(1, bal)])
+    variant = variant or rnd.choice(["wrap3", "wrap4", "plus1", "minus1", "wrap3"])
+    if variant == "wrap3":
+        outs = [(v1, 2**63 - 1), (v2, 2**63 - 1), (v1, inp + 2)]
+    elif variant == "wrap4":
+        outs = [(v1, 2**62), (v2, 2**62), (v1, 2**62), (v2, 2**62 + inp)]
+    elif variant == "plus1":
+        outs = [(v1, inp), (v2, 1)]
+    else:
+        outs = [(v1, max(0, inp - 1))] if inp > 1 else [(v1, 0), (v2, 0)]
+    return s.entry(h, u, [{"t": t, "amt": inp, "to": outs}])
+
+
+def self_return(s, rnd, h, u, t, v, k=None):
+    """Two transactions drawing on one balance, the first returning part of its input to the sender: [u -> {u: r, v: bal-r}, u -> {v: k}].
+    After the first only r is left, so the batch is executed iff k <= r (funds check with the mid-batch credit)."""
+    bal = s.B(u, t)
+    if bal < 4:
+        return s.transfer(h, u, t, [(v, bal)])
+    r = rnd.choice([1, 2, bal // 3])
+    k = k if k is not None else rnd.choice([r, r + 1, bal, max(1, r - 1), bal // 2 + r])
+    e = s.entry(h, u, [{"t": t, "amt": bal, "to": [(u, r), (v, bal - r)]}, {"t": t, "amt": k, "to": [(v, k)]}])
+    if k <= r:
+        s.add(u, t, -(bal - r) - k)
+        s.add(v, t, bal - r + k)
+    return e
+
+
 def mixed_chain(seed, name="mixed", blocks=14, users=6, sched=None, unrated_p=0.25, assets=None, pip10=None,
-                burn_out=True, null_out=False, avg=4, start=None):
+                burn_out=True, null_out=False, avg=4, start=None, odd_shapes=True):
     """Random traffic in the live era: transfers (1-3 outputs, some to the burn address), conversions
     between pUSD/pXBT/pFCT/pDCR/PEG (admissible and not), multi-transaction batches, on a chain with
     randomly unrated blocks. Returns the Scn."""
@@ -268,7 +300,8 @@ def mixed_chain(seed, name="mixed", blocks=14, users=6, sched=None, unrated_p=0.
         for u in us:
             if rnd.random() < 0.55:
                 continue
-            kind = rnd.choice(["xfer", "xfer", "conv", "conv", "multi", "burn" if burn_out else "xfer", "null" if null_out else "xfer"])
+            kind = rnd.choice(["xfer", "xfer", "conv", "conv", "multi", "burn" if burn_out else "xfer", "null" if null_out else "xfer",
+                               "illsum" if odd_shapes else "xfer", "selfret" if odd_shapes else "conv"])
             t = rnd.choice(["PEG", "pUSD", "pXBT"])
             bal = s.B(u, t)
             amt = max(0, rnd.choice([bal // 2, bal // 3, bal, bal + 1, rnd.randint(0, max(1, bal))]))
@@ -281,6 +314,10 @@ def mixed_chain(seed, name="mixed", blocks=14, users=6, sched=None, unrated_p=0.
                 s.transfer(h, u, t, [("BURN", amt // 2), (rnd.choice(us), amt - amt // 2)])
             elif kind == "null":
                 s.transfer(h, u, t, [("OLDBURN", amt // 2), (rnd.choice(us), amt - amt // 2)])
+            elif kind == "illsum":
+                ill_sum(s, rnd, h, u, t, rnd.choice(us), rnd.choice(us))
+            elif kind == "selfret":
+                self_return(s, rnd, h, u, t, rnd.choice([x for x in us if x != u]))
             elif kind == "conv":
                 d = rnd.choice([x for x in dests if x != t])
                 s.convert(h, u, t, amt, d, track=(d in ("pUSD", "pXBT") and not (d == "PEG")))
